@@ -21,6 +21,12 @@ CLAIMS = {
     "C04": dict(cat="proof", ref="DESIGN.md 5/C04",
         text="every codec obligation (decode spec, encode/decode inverses, no silent wrap, id bijection) is an SMT-discharged postcondition of the real function for all inputs",
         note="trusted: pyvc encoding of Python semantics (A1-A4, A11), z3/cvc5; float rounding over-approximated by the relative-error bound with an exact IEEE-754 second back end"),
+    "C10": dict(cat="proof", ref="DESIGN.md 5/C10",
+        text="_is_wanted_addrs == the property's predicate (sound and complete, one equality) for abstract block/known lists of any size, all enforcement settings, any active gateway; the receive and send gates (filter mixin and PortProtocol.send_cmd) hand on iff wanted; _set_active_hgi never activates a blocked id; Gateway.get_device raises LookupError and creates nothing for blocked/unlisted ids: SMT-discharged on the real functions",
+        note="trusted: pyvc semantics incl. abstract id sets (membership = uninterpreted predicate), z3; _BaseProtocol.pkt_received/send_cmd, device_factory and _send_impersonation_alert are environment stubs; not decided: the dispatcher's routing after the LookupError fence; noted, not claimed: the impersonation alert (a 7FFF from the gateway itself) is transmitted before the filter refuses a command"),
+    "C14": dict(cat="other", ref="DESIGN.md 5/C14",
+        text="partial: expiry arithmetic of Message._expired (exact threshold 2L+3s, monotone, payload-derived 1F09 lifetimes incl. 0), pkt_lifespan == the lifetime table, the store rule of _MessageDB._handle_msg over the whole (code,verb,ctx) view, and the read rule of _msg_value_msg are SMT-discharged postconditions of the real functions; the read rule's 'expired => not reported' clause is a listed known finding",
+        note="trusted: pyvc semantics (datetime/timedelta model, float division of integer microseconds compared exactly with 2.0), z3; not decided: MultiZone._handle_msg routing of array payloads to zones, _delete_msg over the entity graph"),
 }
 
 NA = {
